@@ -149,6 +149,21 @@ UNITS = {
              'find': "if len > 0 && bytes[len - 1] == b'\\r' {", 'replace': "if len > 0 {"},
         ],
     },
+    'v_sentence': {
+        'tpl': 'units/v_sentence.rs.tpl', 'rlimit': 60,
+        'mutants': [
+            {'name': 'character count of the rest of the input (the repaired defect F8)', 'file': 'sudachi/src/sentence_detector.rs',
+             'find': 'if input[i..end_byte].chars().take(2).count() > 1 {', 'replace': 'if input[i..].chars().take(2).count() > 1 {'},
+            {'name': 'words ending on the boundary always veto', 'file': 'sudachi/src/sentence_detector.rs',
+             'find': 'if input[i..end_byte].chars().take(2).count() > 1 {', 'replace': 'if input[i..end_byte].chars().take(2).count() > 0 {'},
+            {'name': 'look-back window starts after the boundary word', 'file': 'sudachi/src/sentence_detector.rs',
+             'find': 'for i in lookup_start..eos_byte {', 'replace': 'for i in lookup_start + 3..eos_byte {'},
+            {'name': 'sentence end relative to the slice, not the text', 'file': 'sudachi/src/sentence_splitter.rs',
+             'find': 'self.position + rv as usize', 'replace': 'rv as usize'},
+            {'name': 'negative result swallows nothing (no progress)', 'file': 'sudachi/src/sentence_splitter.rs',
+             'find': 'let end = if rv < 0 {\n            self.data.len()', 'replace': 'let end = if rv < 0 {\n            self.position'},
+        ],
+    },
 }
 
 NOT_APPLICABLE = {
@@ -158,6 +173,13 @@ for _i in range(1, 21):
     NOT_APPLICABLE.setdefault('C%02d' % _i, 'not yet under contract in this revision of /verif (see DESIGN.md build order)')
 
 PROPS = {
+    'C16': {
+        'level_text': 'Verus proves (a) on the real SentenceIter::next, for every text and every answer of get_eos inside its envelope, that sentences are non-empty contiguous ranges on character boundaries equal to the text in their range, that the position strictly increases (termination) and that iteration ends exactly at the end of the text - the verified client all_sentences states the partition theorem; (b) on the real NonBreakChecker::has_non_break_word that a break candidate is vetoed iff some dictionary word starting in the 30-byte look-back window ends after it, or ends on it and has more than one character',
+        'level_note': 'assumed: SentenceDetector::get_eos returns a negative value or an offset 0 < rv <= len on a character boundary (its body - which strings are terminators, brackets, quoting particles, itemisation headers - is built on fancy_regex and is NOT verified); dictionary lookup yields entries on character boundaries (valid UTF-8 keys); the converse clause "every unbracketed terminator ends a sentence" is decided only for the dictionary-veto part',
+        'verus': ['v_sentence'],
+        'kani': [],
+        'assumptions': ['get_eos envelope (regex engine)', 'dictionary keys are valid UTF-8', 'str slicing / chars().take(2).count() std contracts'],
+    },
     'C19': {
         'level_text': 'ONE clause of C19 is decided: Verus proves on the real strip_eol (sudachi-cli/src/main.rs), for every line, that the analysed text is the line without one trailing "\\n" or "\\r\\n" and that the unsafe from_utf8_unchecked is applied to valid UTF-8 - so a blank line is analysed as the empty string',
         'level_note': 'everything else in C19 (PyO3 objects and GIL handling, per-call mode override, output list reuse, column format of the CLI, interpreter crashes) is outside any contract within reach of the installed verifiers and is NOT checked: a change there is not detected by this check',
